@@ -186,6 +186,7 @@ MutStep(T, e) ==
       T2 == e.tree
       room == Room(T)
       g == IF GuardsOk(T2) THEN {} ELSE {<<"C11", "no_guard_damage">>}
+      adp == IF HasAdapter(T) THEN {<<"C12", "adapter_room">>} ELSE {}
   IN
   CASE e.op = "put" ->
          IF Methods[e.m].var /\ n > 8 THEN [V |-> g] ELSE [V |-> g \cup WriteLaws(T, e, Encode(e.m, e.v16, n))]
@@ -195,13 +196,14 @@ MutStep(T, e) ==
     [] e.op = "manual" ->
          [V |-> g \cup (IF ok /\ e.res.n <= Len(e.d) /\ e.res.n <= room /\ (e.res.n = 0 => (room = 0 \/ e.d = <<>>))
                         THEN SinkTreeLaws(WriteTree(T, Take(e.d, e.res.n)), T2) ELSE {<<"C11", "chunk_mut_bounds">>})]
+    \* a wrong answer of a Chain / Limit about its room is also a bookkeeping error of the adapter (C12)
     [] e.op = "chunk_mut_len" ->
-         [V |-> g \cup (IF ok /\ e.res.n <= room /\ (e.res.n = 0 => room = 0) THEN {} ELSE {<<"C11", "chunk_mut_bounds">>})
+         [V |-> g \cup (IF ok /\ e.res.n <= room /\ (e.res.n = 0 => room = 0) THEN {} ELSE {<<"C11", "chunk_mut_bounds">>} \cup adp)
                   \cup (IF ok THEN SinkTreeLaws(T, T2) ELSE {})]
     [] e.op = "remaining_mut" ->
-         [V |-> g \cup (IF ok /\ e.res.n = room THEN {} ELSE {<<"C11", "room_exact">>}) \cup SinkTreeLaws(T, T2)]
+         [V |-> g \cup (IF ok /\ e.res.n = room THEN {} ELSE {<<"C11", "room_exact">>} \cup adp) \cup SinkTreeLaws(T, T2)]
     [] e.op = "has_remaining_mut" ->
-         [V |-> g \cup (IF ok /\ e.res.flag = (room > 0) THEN {} ELSE {<<"C11", "room_exact">>}) \cup SinkTreeLaws(T, T2)]
+         [V |-> g \cup (IF ok /\ e.res.flag = (room > 0) THEN {} ELSE {<<"C11", "room_exact">>} \cup adp) \cup SinkTreeLaws(T, T2)]
     [] e.op = "write" ->
          LET k == Min2(Len(e.d), room) IN
          [V |-> g \cup (IF ok /\ e.res.flag /\ e.res.n = k THEN {} ELSE {<<"C12", "io_min">>})
